@@ -497,9 +497,21 @@ func (o *Ownership) scan(f *ssa.Function, report bool) bool {
 							}
 							// pointer to an element of a slice: the element's field backing is reachable from that slice
 							if sl := elemAddrSlice(a); sl != nil {
-								curCalleeElems, curCalleeParam, curCalleeField = true, pi, field
-								noteElemWrite(sl, x, "call:"+FnName(originOf(callee))+" (field "+field+")", callee)
-								curCalleeElems, curCalleeParam, curCalleeField = false, -1, ""
+								targets := []ssa.Value{sl}
+								suffix := " (field " + field + ")"
+								if isFreshSlice(o.p, sl, 0) {
+									// a shallow clone: the elements' inner slices are still those of the source
+									if elemFieldFreshBefore(o.p, sl, a, field, x) {
+										continue
+									}
+									targets = shallowCloneSources(sl, 0)
+									suffix = " (field " + field + " of an element of a shallow clone)"
+								}
+								for _, t := range targets {
+									curCalleeElems, curCalleeParam, curCalleeField = true, pi, field
+									noteElemWrite(t, x, "call:"+FnName(originOf(callee))+suffix, callee)
+									curCalleeElems, curCalleeParam, curCalleeField = false, -1, ""
+								}
 								continue
 							}
 							// any other pointer (e.g. the result of DataCopy, the stored object): the top of a chain
@@ -655,4 +667,76 @@ func elemAddrSlice(a ssa.Value) ssa.Value {
 		}
 	}
 	return nil
+}
+
+// shallowCloneSources: the slices whose elements were copied (one level) into v.
+func shallowCloneSources(v ssa.Value, depth int) []ssa.Value {
+	if depth > 8 || v == nil {
+		return nil
+	}
+	switch x := v.(type) {
+	case *ssa.Call:
+		if callee := x.Call.StaticCallee(); callee != nil && fnPkgPath(callee) == "slices" && originName(callee) == "Clone" && len(x.Call.Args) == 1 {
+			return []ssa.Value{x.Call.Args[0]}
+		}
+		if builtinName(&x.Call) == "append" && len(x.Call.Args) == 2 {
+			res := shallowCloneSources(x.Call.Args[0], depth+1)
+			// append(dst, src...) copies the elements of src
+			if _, isSl := x.Call.Args[1].Type().Underlying().(*types.Slice); isSl {
+				if _, fromArr := x.Call.Args[1].(*ssa.Slice); !fromArr {
+					res = append(res, x.Call.Args[1])
+				}
+			}
+			return res
+		}
+	case *ssa.Phi:
+		var res []ssa.Value
+		for _, e := range x.Edges {
+			res = append(res, shallowCloneSources(e, depth+1)...)
+		}
+		return res
+	case *ssa.ChangeType:
+		return shallowCloneSources(x.X, depth+1)
+	case *ssa.UnOp:
+		if a, ok := x.X.(*ssa.Alloc); ok && x.Op == token.MUL {
+			var res []ssa.Value
+			for _, ref := range *a.Referrers() {
+				if st, ok := ref.(*ssa.Store); ok && st.Addr == ssa.Value(a) {
+					res = append(res, shallowCloneSources(st.Val, depth+1)...)
+				}
+			}
+			return res
+		}
+	}
+	return nil
+}
+
+// elemFieldFreshBefore: a fresh slice was stored into sl[i].field (same index
+// expression as the element address ea) on every path before ins.
+func elemFieldFreshBefore(p *Prog, sl ssa.Value, ea ssa.Value, field string, ins ssa.Instruction) bool {
+	ia, ok := ea.(*ssa.IndexAddr)
+	if !ok {
+		return false
+	}
+	want := Path(ia.Index)
+	for _, b := range ins.Parent().Blocks {
+		for _, i2 := range b.Instrs {
+			st, ok := i2.(*ssa.Store)
+			if !ok {
+				continue
+			}
+			fa, ok := st.Addr.(*ssa.FieldAddr)
+			if !ok || fieldOfAddr(fa) == nil || fieldOfAddr(fa).Name() != field {
+				continue
+			}
+			ia2, ok := fa.X.(*ssa.IndexAddr)
+			if !ok || ia2.X != sl || Path(ia2.Index) != want {
+				continue
+			}
+			if isFreshSlice(p, st.Val, 0) && instrDominates(st, ins) {
+				return true
+			}
+		}
+	}
+	return false
 }
